@@ -121,29 +121,37 @@ theorem C06_kde_nnls_shape (es d scores : List Rat) (hd : ∀ x ∈ d, 0 ≤ x) 
     cases hh
     exact clip_le 0 1 _
 
-/-- **hist_nnls**: same, including the `scale_to_one` division; the model is defined
-(`some`) exactly when `pep_est[0] ≠ 0`. -/
+/-- **hist_nnls**: same, including the `scale_to_one` division (which the repaired code
+performs only for `0 < pep_est[0] < 1`). -/
 theorem C06_hist_nnls_shape (es d scores : List Rat) (hd : ∀ x ∈ d, 0 ≤ x) (r : List Rat)
     (hr : histNnlsOf es d scores = some r) : Shape 0 (some 1) scores r := by
   unfold histNnlsOf at hr
-  split at hr
-  · cases hr
-  · cases hr
-    apply shape_map 0 (some 1) (fun x => clip 0 1 (interp (es.zip (scaleToOne (revCumsum d))) x))
-    · intro a b hab
-      exact clip_mono 0 1 (interp_anti _ (antiKnots_zip es _
-        (scaleToOne_anti _ (revCumsum_anti d hd) (revCumsum_nonneg d hd))) hab)
-    · intro a
-      refine ⟨le_clip 0 1 _ (by norm_num), ?_⟩
-      intro h hh
-      cases hh
-      exact clip_le 0 1 _
+  cases hr
+  apply shape_map 0 (some 1) (fun x => clip 0 1 (interp (es.zip (scaleToOne (revCumsum d))) x))
+  · intro a b hab
+    exact clip_mono 0 1 (interp_anti _ (antiKnots_zip es _
+      (scaleToOne_anti _ (revCumsum_anti d hd) (revCumsum_nonneg d hd))) hab)
+  · intro a
+    refine ⟨le_clip 0 1 _ (by norm_num), ?_⟩
+    intro h hh
+    cases hh
+    exact clip_le 0 1 _
 
-/-- `hist_nnls` yields no PEPs (`0/0` for every PSM in the code) iff `pep_est[0] = 0` -/
+/-- **`hist_nnls` always yields one PEP per PSM** (restated for the repaired code, commit 835a908; no
+hypothesis on the fit): in particular for an identically zero fit (`pep_est[0] = 0`, well separated
+targets and decoys), which is left unscaled — the old code computed `0/0` for every PSM there
+(`Mutants.histNnlsOfOld_violates`). -/
 theorem C06_hist_nnls_defined_iff (es d scores : List Rat) :
-    histNnlsOf es d scores = none ↔ (revCumsum d).headD 0 = 0 := by
-  unfold histNnlsOf
-  split <;> simp_all
+    (histNnlsOf es d scores ≠ none) ∧
+    (∃ r, histNnlsOf es d scores = some r ∧ r.length = scores.length) ∧
+    ((revCumsum d).headD 0 = 0 → scaleToOne (revCumsum d) = revCumsum d) := by
+  refine ⟨by simp [histNnlsOf], ⟨_, rfl, by simp⟩, ?_⟩
+  intro h
+  unfold scaleToOne
+  rw [if_neg]
+  rw [h]
+  intro hc
+  exact absurd hc.1 (lt_irrefl 0)
 
 /-- **alignment of the interpolation-based PEPs** (`interp_pointwise`): output `i` depends on
 score `i` only — for every arrangement `ys` of the PSMs the result is `ys.map` of one
@@ -155,10 +163,8 @@ theorem C06_interp_pointwise (es d : List Rat) (ys : List Psm) :
   · simp [kdeNnlsOf, kdePepFun, List.map_map, Function.comp_def]
   · intro r hr
     unfold histNnlsOf at hr
-    split at hr
-    · cases hr
-    · cases hr
-      simp [histPepFun, List.map_map, Function.comp_def]
+    cases hr
+    simp [histPepFun, List.map_map, Function.comp_def]
 
 /-! ## qvality wrapper -/
 
@@ -350,7 +356,7 @@ example : (∀ x ∈ [(0 : Rat), 1/4, 0, 1/2], 0 ≤ x) := by decide +kernel
     == [9/10, 1/10, 2/10, 2/10]
 #guard kdeNnlsOf [0, 1, 2] [1/4, 1/4, 1/2] [2, 0, 1, 3/2, 5, -1] == [1/4, 1, 1/2, 3/8, 1/4, 1]
 #guard histNnlsOf [0, 1, 2] [1/8, 1/8, 1/4] [2, 0, 1] == some [1/4, 1, 1/2]
-#guard histNnlsOf [0, 1, 2] [0, 0, 0] [2, 0, 1] == none
+#guard histNnlsOf [0, 1, 2] [0, 0, 0] [2, 0, 1] == some [0, 0, 0]   -- all-zero fit: unscaled (repaired code)
 #guard fromPeps [(3, true), (1, true), (2, false), (2, true)] [0, 1/2, 1/4, 1/4] == some [0, 1/4, 1/8, 1/8]
 #guard fromCounts 1 [(3, true), (1, false), (2, true), (0, true)] == some [0, 1/2, 0, 1/2]
 #guard fromCounts 1 [(3, false), (1, true)] == none
